@@ -104,6 +104,17 @@ func (e *c08Entry) determining() (reporter string, ok bool) {
 	return c08Addr(e.agg.Reporters[i].Reporter), true
 }
 
+// detHeight is the height at which the determining report was submitted, taken from the report's own
+// entry in the aggregate's reporter list (not from the aggregate's micro-height field, which is the
+// chain's bookkeeping for the very lookup under test); withdrawal aggregates have no reporters.
+func (e *c08Entry) detHeight() uint64 {
+	i := e.agg.AggregateReportIndex
+	if i >= uint64(len(e.agg.Reporters)) || e.agg.Reporters[i] == nil {
+		return e.agg.MicroHeight
+	}
+	return e.agg.Reporters[i].BlockNumber
+}
+
 func (m *aggHistMonitor) readAggregates(c *Chain, ctx sdk.Context) (map[string]c08Entry, []string, error) {
 	cur := map[string]c08Entry{}
 	var keys []string
@@ -231,7 +242,7 @@ func (m *aggHistMonitor) After(c *Chain, w *World, br *BlockResult, outs []TxOut
 				}
 				continue
 			}
-			if j.block != e.agg.MicroHeight {
+			if j.block != e.detHeight() {
 				if why != "dispute-names-another-reporter-at-that-height" {
 					why = "dispute-names-another-height"
 				}
@@ -285,7 +296,7 @@ func (m *aggHistMonitor) After(c *Chain, w *World, br *BlockResult, outs []TxOut
 	// evidence naming the determining report must leave the aggregate flagged
 	for _, j := range J {
 		for _, old := range prevLists[j.qid] {
-			if old.agg.MicroHeight != j.block {
+			if old.detHeight() != j.block {
 				continue
 			}
 			rep, ok := old.determining()
@@ -333,7 +344,7 @@ func (m *aggHistMonitor) After(c *Chain, w *World, br *BlockResult, outs []TxOut
 		if len(e.agg.Reporters) == 0 {
 			m.nWithdrawAgg++
 		}
-		if rep, ok := e.determining(); ok && !e.agg.Flagged && m.histJ[fmt.Sprintf("%s|%s|%d", q, rep, e.agg.MicroHeight)] {
+		if rep, ok := e.determining(); ok && !e.agg.Flagged && m.histJ[fmt.Sprintf("%s|%s|%d", q, rep, e.detHeight())] {
 			// Disputed before it was aggregated: the new aggregate is determined by an already disputed
 			// report and starts unflagged. The statement speaks about stored aggregates being altered, so
 			// this is counted only; VERIF_C08_LATE=1 turns it into a violation to obtain a shrunk example.
